@@ -166,6 +166,45 @@ Proof.
   apply sync_header_frame.
 Qed.
 
+(* ---- a pass of HeaderStoreRetrieveLoop over a range of the header store ---------------------------------- *)
+Lemma forward_header_frame : forall tb s sh,
+  n_hstore (forward_header g tb s sh) = n_hstore s /\ n_crashed (forward_header g tb s sh) = n_crashed s.
+Proof.
+  intros. unfold forward_header. destruct (is_expected_sequencer g sh); [|split; reflexivity].
+  destruct (sync_header_frame tb s sh) as (F1 & _ & _ & _ & F5). split; assumption.
+Qed.
+
+Lemma forward_range_frame : forall tb l s,
+  n_hstore (forward_range g tb s l) = n_hstore s /\ n_crashed (forward_range g tb s l) = n_crashed s.
+Proof.
+  intros tb l. unfold forward_range. induction l as [|x r IH]; intros s; [split; reflexivity|].
+  cbn [fold_left]. destruct (IH (forward_header g tb s x)) as [F1 F2].
+  destruct (forward_header_frame tb s x) as [G1 G2]. rewrite F1, F2, G1, G2. split; reflexivity.
+Qed.
+
+(* what a pass hands to the sync loop is the subsequence of the range that passes the sequencer test, header by
+   header, wherever in the range a header sits and whatever its neighbours are *)
+Lemma forward_range_forwarded : forall tb l s,
+  forward_range g tb s l = fold_left (sync_header tb) (forwarded g l) s.
+Proof.
+  intros tb l. unfold forward_range, forwarded. induction l as [|x r IH]; intros s; [reflexivity|].
+  cbn [fold_left filter]. unfold forward_header at 2.
+  destruct (is_expected_sequencer g x); cbn [fold_left]; apply IH.
+Qed.
+
+Lemma forwarded_signed : forall l, Forall (fun sh => signed_by pk sh = true) (forwarded g l).
+Proof.
+  intros l. unfold forwarded. rewrite Forall_forall. intros sh Hin.
+  apply filter_In in Hin as [_ He]. apply expected_signed. exact He.
+Qed.
+
+(* whatever the header store holds — any number of headers per pass, of any origin, at any position of the range —
+   what a pass of HeaderStoreRetrieveLoop hands to the sync loop is signed by the proposer *)
+Lemma store_range_full : forall tb l s,
+  forward_range g tb s l = fold_left (sync_header tb) (forwarded g l) s /\
+  Forall (fun sh => signed_by pk sh = true) (forwarded g l).
+Proof. intros. split; [apply forward_range_forwarded|apply forwarded_signed]. Qed.
+
 (* ---- the chunked read of a DA height (RetrieveWithHelpers) hands over every blob, in order ----------- *)
 Lemma chunks_from_nil : forall A fuel, @chunks_from A fuel [] = [].
 Proof. intros A [|f]; reflexivity. Qed.
@@ -321,8 +360,8 @@ Lemma node_step_inv : forall now tb s i,
   init_ok pk i = true -> hstore_inv pk s -> hstore_inv pk (fst (node_step g now tb s i)).
 Proof.
   intros now tb s i Hi Hs.
-  destruct i as [sh|d|b|bl|u|u linked]; try apply node_step_inv_blob; try assumption;
-    [| |rewrite node_step_height; apply blobs_ind; [intros; apply node_step_inv_blob|]; assumption| |];
+  destruct i as [sh|d|b|bl|u|u linked|rg]; try apply node_step_inv_blob; try assumption;
+    [| |rewrite node_step_height; apply blobs_ind; [intros; apply node_step_inv_blob|]; assumption| | |];
     unfold node_step; (destruct (n_crashed s); [exact Hs|]).
   - destruct (n_hstore s) eqn:E; [|cbn; exact Hs].
     cbn [fst]. unfold hstore_inv. rewrite forward_header_hstore. cbn. exact Hi.
@@ -338,6 +377,15 @@ Proof.
     cbn [fst]. unfold hstore_inv.
     destruct (sync_data_frame tb (set_ingress s (n_hda s) (n_dda s) (n_hstore s) (u :: n_dstore s) false) u) as [F _].
     rewrite F. cbn. exact Hs.
+  - (* a range of the header store: its newest header becomes the head *)
+    destruct (range_ok (n_hstore s) rg) eqn:Er; [|cbn; exact Hs]. cbn [fst]. unfold hstore_inv.
+    match goal with |- context [forward_range g tb ?x rg] => destruct (forward_range_frame tb rg x) as [F _] end.
+    rewrite F. cbn [set_ingress n_hstore].
+    destruct (rev rg) as [|y ys] eqn:Erev.
+    + apply (f_equal (@rev sheader)) in Erev. rewrite rev_involutive in Erev. subst rg.
+      unfold range_ok in Er. destruct (n_hstore s); discriminate.
+    + cbn [app]. cbn [init_ok] in Hi. rewrite forallb_forall in Hi. apply Hi.
+      apply in_rev. rewrite Erev. left. reflexivity.
 Qed.
 
 (* ---- harmless adversarial traffic is a no-op on the whole node state ------------------------------- *)
@@ -391,7 +439,7 @@ Lemma harmless_noop : forall now tb s i,
   hstore_inv pk s -> harmless pk i = true -> fst (node_step g now tb s i) = s.
 Proof.
   intros now tb s i Hs Hh.
-  destruct i as [sh|d|b|bl|u|u linked]; try discriminate.
+  destruct i as [sh|d|b|bl|u|u linked|rg]; try discriminate.
   - (* DA blob *)
     destruct (n_crashed s) eqn:Ec; [unfold node_step; rewrite Ec; reflexivity|].
     rewrite node_step_IDA by exact Ec. apply da_blob_noop; assumption.
@@ -501,6 +549,13 @@ Qed.
 Lemma set_ingress_inv : forall s a b c d e, sync_inv s -> sync_inv (set_ingress s a b c d e).
 Proof. intros s a b c d e [H1 H2]. split; cbn; assumption. Qed.
 
+(* a pass over a range of the header store, whatever headers the range holds *)
+Lemma forward_range_inv : forall tb l s, sync_inv s -> sync_inv (forward_range g tb s l).
+Proof.
+  intros tb l. unfold forward_range. induction l as [|x r IH]; intros s Hs; [exact Hs|].
+  cbn [fold_left]. apply IH. apply forward_header_inv. exact Hs.
+Qed.
+
 Lemma da_admit_hevent : forall hs dsn b sh,
   o_hevent (da_admit g hs dsn b) = Some sh -> b = BHdr sh /\ is_expected_sequencer g sh = true.
 Proof.
@@ -531,8 +586,8 @@ Qed.
 Lemma node_step_sync_inv : forall now tb s i, sync_inv s -> sync_inv (fst (node_step g now tb s i)).
 Proof.
   intros now tb s i Hs.
-  destruct i as [sh|d|b|bl|u|u linked]; try (apply node_step_sync_inv_blob; assumption);
-    [| |rewrite node_step_height; apply blobs_ind; [intros; apply node_step_sync_inv_blob|]; assumption| |];
+  destruct i as [sh|d|b|bl|u|u linked|rg]; try (apply node_step_sync_inv_blob; assumption);
+    [| |rewrite node_step_height; apply blobs_ind; [intros; apply node_step_sync_inv_blob|]; assumption| | |];
     unfold node_step; (destruct (n_crashed s); [exact Hs|]).
   - destruct (n_hstore s); [|exact Hs]. cbn [fst].
     apply forward_header_inv. apply set_ingress_inv. exact Hs.
@@ -542,6 +597,8 @@ Proof.
     apply forward_header_inv. apply set_ingress_inv. exact Hs.
   - destruct (dstore_accepts now (n_dstore s) u linked); [|exact Hs]. cbn [fst].
     apply sync_data_inv. apply set_ingress_inv. exact Hs.
+  - destruct (range_ok (n_hstore s) rg); [|exact Hs]. cbn [fst].
+    apply forward_range_inv. apply set_ingress_inv. exact Hs.
 Qed.
 
 (* for ALL traffic: everything the node caches, applies and stores is signed by the proposer *)
@@ -559,8 +616,8 @@ Proof. intros now tb s b Hc. rewrite node_step_IDA by exact Hc. apply da_blob_st
 Lemma node_step_no_crash : forall now tb s i, n_crashed s = false -> n_crashed (fst (node_step g now tb s i)) = false.
 Proof.
   intros now tb s i Hc.
-  destruct i as [sh|d|b|bl|u|u linked]; try (apply node_step_no_crash_blob; assumption);
-    [| |rewrite node_step_height; apply (blobs_ind (fun s => n_crashed s = false)); [intros; apply node_step_no_crash_blob|]; assumption| |];
+  destruct i as [sh|d|b|bl|u|u linked|rg]; try (apply node_step_no_crash_blob; assumption);
+    [| |rewrite node_step_height; apply (blobs_ind (fun s => n_crashed s = false)); [intros; apply node_step_no_crash_blob|]; assumption| | |];
     unfold node_step; rewrite Hc.
   - destruct (n_hstore s); [|exact Hc]. cbn [fst]. unfold forward_header.
     destruct (is_expected_sequencer g sh); [|reflexivity].
@@ -576,6 +633,9 @@ Proof.
   - destruct (dstore_accepts now (n_dstore s) u linked); [|exact Hc]. cbn [fst].
     match goal with |- n_crashed (sync_data tb ?x u) = _ => destruct (sync_data_frame tb x u) as (_ & _ & _ & _ & F); rewrite F end.
     reflexivity.
+  - destruct (range_ok (n_hstore s) rg); [|exact Hc]. cbn [fst].
+    match goal with |- n_crashed (forward_range g tb ?x rg) = _ => destruct (forward_range_frame tb rg x) as [_ F]; rewrite F end.
+    reflexivity.
 Qed.
 
 Lemma no_crash_full : forall now tb l s, n_crashed s = false -> n_crashed (node_final g now tb s l) = false.
@@ -586,7 +646,7 @@ Qed.
 
 (* third-party material on the DA layer (any blobs not signed by the proposer), interleaved anywhere: no effect *)
 Lemma da_adversarial_harmless : forall i, da_adversarial pk i = true -> harmless pk i = true.
-Proof. intros [sh|d|b|bl|u|u l] H; cbn [da_adversarial harmless] in *; try discriminate; exact H. Qed.
+Proof. intros [sh|d|b|bl|u|u l|rg] H; cbn [da_adversarial harmless] in *; try discriminate; exact H. Qed.
 
 Lemma no_halt_da_full : forall now tb gs adv m,
   interleave gs adv m ->
@@ -657,6 +717,91 @@ Proof. intros. split; constructor. Qed.
 
 (* DA-included marks: a header mark is only ever set for a header that passed the sequencer test *)
 End WithProposer.
+
+(* ---- a range of the header store read in one pass = its headers read one pass each ------------------------ *)
+(* [wh s hs]: the node state with the header store replaced; nothing of the sync machinery looks at the store *)
+Definition wh (s : nstate) (hs : list sheader) : nstate :=
+  set_ingress s (n_hda s) (n_dda s) hs (n_dstore s) false.
+
+Lemma try_sync_wh : forall tb fuel s a, try_sync tb fuel (wh s a) = wh (try_sync tb fuel s) a.
+Proof.
+  intros tb fuel. induction fuel as [|f IH]; intros s a; [reflexivity|].
+  cbn [try_sync]. change (n_hcache (wh s a)) with (n_hcache s). change (n_dcache (wh s a)) with (n_dcache s).
+  change (n_height (wh s a)) with (n_height s). change (n_state (wh s a)) with (n_state s).
+  destruct (cache_get (n_hcache s) (n_height s + 1)) as [h|]; [|reflexivity].
+  destruct (cache_get (n_dcache s) (n_height s + 1)) as [d|]; [|reflexivity].
+  destruct (validate (n_state s) h d); [|reflexivity].
+  match goal with |- try_sync tb f ?x = wh (try_sync tb f ?y) a => change x with (wh y a) end.
+  apply IH.
+Qed.
+
+Lemma sync_header_wh : forall tb s a sh, sync_header tb (wh s a) sh = wh (sync_header tb s sh) a.
+Proof.
+  intros tb s a sh. unfold sync_header.
+  change (n_halted (wh s a)) with (n_halted s). change (n_height (wh s a)) with (n_height s).
+  change (n_hseen (wh s a)) with (n_hseen s).
+  destruct (n_halted s); [reflexivity|].
+  destruct ((h_height (sh_hdr sh) <=? n_height s)%N || mem_header (sh_hdr sh) (n_hseen s)); [reflexivity|].
+  match goal with |- context [try_sync tb ?f ?x] =>
+    match goal with |- context [wh (if n_halted (try_sync tb ?f' ?y) then _ else _) a] =>
+      change f with f'; change x with (wh y a); rewrite (try_sync_wh tb f' y a); set (s2 := try_sync tb f' y) end end.
+  change (n_halted (wh s2 a)) with (n_halted s2).
+  destruct (n_halted s2); reflexivity.
+Qed.
+
+Section StoreRange.
+Variable g : genesis.
+
+Lemma forward_header_wh : forall tb s a sh, forward_header g tb (wh s a) sh = wh (forward_header g tb s sh) a.
+Proof.
+  intros. unfold forward_header. destruct (is_expected_sequencer g sh); [apply sync_header_wh|reflexivity].
+Qed.
+
+Lemma forward_range_wh : forall tb l s a, forward_range g tb (wh s a) l = wh (forward_range g tb s l) a.
+Proof.
+  intros tb l. unfold forward_range. induction l as [|x r IH]; intros s a; [reflexivity|].
+  cbn [fold_left]. rewrite forward_header_wh. apply IH.
+Qed.
+
+Lemma wh_wh : forall s a b, wh (wh s a) b = wh s b.
+Proof. reflexivity. Qed.
+
+Lemma range_step_eq : forall now tb s l, n_crashed s = false -> range_ok (n_hstore s) l = true ->
+  fst (node_step g now tb s (IStoreRange l)) = wh (forward_range g tb s l) (rev l ++ n_hstore s).
+Proof.
+  intros now tb s l Hc Hr. unfold node_step. rewrite Hc, Hr. cbn [fst].
+  change (set_ingress s (n_hda s) (n_dda s) (rev l ++ n_hstore s) (n_dstore s) false) with (wh s (rev l ++ n_hstore s)).
+  apply forward_range_wh.
+Qed.
+
+(* a range read in ONE pass does to the node exactly what its headers do when the store grows, and the loop
+   passes, one header at a time *)
+Lemma range_as_singles : forall now tb l s, n_crashed s = false -> range_ok (n_hstore s) l = true ->
+  fst (node_step g now tb s (IStoreRange l)) = node_final g now tb s (map (fun x => IStoreRange [x]) l).
+Proof.
+  intros now tb l. induction l as [|x r IH]; intros s Hc Hr.
+  - unfold range_ok in Hr. destruct (n_hstore s); discriminate.
+  - rewrite range_step_eq by assumption.
+    cbn [map]. rewrite node_final_cons.
+    destruct (n_hstore s) as [|t st] eqn:Est; [discriminate|].
+    cbn [range_ok consecutive] in Hr. apply andb_true_iff in Hr as [Hx Hrest].
+    assert (Hr1 : range_ok (n_hstore s) [x] = true).
+    { rewrite Est. cbn [range_ok consecutive]. rewrite Hx. reflexivity. }
+    rewrite (range_step_eq now tb s [x] Hc Hr1). rewrite Est.
+    cbn [rev app]. unfold forward_range at 2. cbn [fold_left].
+    set (s' := wh (forward_header g tb s x) (x :: t :: st)).
+    destruct r as [|y r'].
+    + cbn [map]. rewrite node_final_nil. reflexivity.
+    + assert (Hc' : n_crashed s' = false) by reflexivity.
+      assert (Hr' : range_ok (n_hstore s') (y :: r') = true).
+      { change (n_hstore s') with (x :: t :: st). cbn [range_ok].
+        apply N.eqb_eq in Hx. rewrite Hx. exact Hrest. }
+      rewrite <- (IH s' Hc' Hr'). rewrite (range_step_eq now tb s' (y :: r') Hc' Hr').
+      unfold s'. rewrite forward_range_wh, wh_wh. change (n_hstore (wh (forward_header g tb s x) (x :: t :: st))) with (x :: t :: st).
+      unfold forward_range. cbn [fold_left]. f_equal.
+      rewrite <- app_assoc. reflexivity.
+Qed.
+End StoreRange.
 
 (* ---- the same batches as property C09's model of RetrieveWithHelpers (Model/Retriever.v, C09_chunks_full) --- *)
 Lemma get_calls_from_as_C09 : forall A fuel (l : list A) (l' : list Retriever.blob) off, length l = length l' ->
